@@ -87,7 +87,7 @@ def _expand_auto(F, by, idx, env, tr, depth):
     return out
 
 
-def rule_auto(ctx, rep):
+def rule_auto(ctx, rep, only=None):
     """Exactness of the manual auto-trait impls, for all payload types at once (read from the impl table)."""
     for tag, F, E in ctx.each(da=False):
         by = {}
@@ -101,6 +101,8 @@ def rule_auto(ctx, rep):
                 continue
             by.setdefault((st["path"], tr), []).append(im)
         for h in SHARED + ("UniqueArc",):
+            if only and h not in only:
+                continue
             hp = F.handle_paths.get(h)
             adt = F.adts.get(hp or "")
             if not adt:
@@ -110,6 +112,19 @@ def rule_auto(ctx, rep):
             for tr in (SEND, SYNC):
                 ik = "%s: %s" % (h, tr.split("::")[-1])
                 ims = by.get((hp, tr), [])
+                if not ims:
+                    # no manual impl: the compiler derives the auto trait from the fields (`PhantomData<Arc<A>>` markers give
+                    # exactly Arc<A>'s bounds, bare `PhantomData<A>` markers give too little)
+                    hi = next((i for i, t in enumerate(F.types) if t["k"] == "adt" and t.get("path") == hp and all(F.ty(a["t"])["k"] == "param" for a in t.get("args", []) if "t" in a)), None)
+                    ex = _expand_auto(F, by, hi, {}, tr, 0) if hi is not None else None
+                    want0 = set((n, tr) for n in tparams) if h == "UniqueArc" else set((n, t) for n in tparams for t in (SEND, SYNC))
+                    if ex is not None and ex == want0:
+                        rep.ok("R-AUTO", ik, "derived from the fields: " + ", ".join(sorted("%s: %s" % (n, t.split("::")[-1]) for n, t in ex)), cfg=tag)
+                    elif ex is not None:
+                        rep.bad("R-AUTO", ik, "there is no manual impl and the fields give `%s` %s; required exactly %s: %s" % (tr.split("::")[-1], ("never" if NEVER in ex else "where " + ", ".join(sorted("%s: %s" % (n, t.split("::")[-1]) for n, t in ex))) , sorted("%s: %s" % (n, t.split("::")[-1]) for n, t in want0), "a handle could cross threads with a payload that must not" if (want0 - ex) and NEVER not in ex else "handles of sound payloads are needlessly not Send/Sync"), None, tag)
+                    else:
+                        rep.bad("R-AUTO", ik, "expected exactly one manual `unsafe impl %s for %s`, found 0 (and what the fields give cannot be told)" % (tr.split("::")[-1], h), None, tag)
+                    continue
                 if len(ims) != 1:
                     rep.bad("R-AUTO", ik, "expected exactly one manual `unsafe impl %s for %s`, found %d" % (tr.split("::")[-1], h, len(ims)), None, tag)
                     continue
@@ -160,11 +175,15 @@ def rule_auto(ctx, rep):
         # nothing else carries a manual Send/Sync impl except the allocation header INNER
         for (path, tr), ims in by.items():
             hn = F.path_to_handle.get(path)
-            if hn in SHARED + ("UniqueArc",):
+            if hn in SHARED + ("UniqueArc",) or only:
                 continue
             ik = "%s: %s" % (path, tr.split("::")[-1])
             if path == F.inner_path:
                 rep.ok("R-AUTO", ik, "allocation header", cfg=tag)
+            elif path in F.adts and not F.adts[path].get("reachable", True):
+                # a private type (`struct TaggedPtr(NonNull<()>)`): its impls reach clients only through the handle types that
+                # contain it, whose own bounds are computed *through* these impls above
+                rep.ok("R-AUTO", ik, "private type: accounted for in the handles that contain it", cfg=tag, nontrivial=False)
             else:
                 rep.bad("R-AUTO", ik, "unexpected manual auto-trait impl on %s" % path, None, tag)
         # R-PHANTOM: owning handles with a destructor mention every payload parameter in a PhantomData / owning field
